@@ -441,3 +441,348 @@ Proof.
     specialize (Mx _ (in_map e_end _ _ He0)). rewrite C3 in Mx. rewrite Ee. unfold dur_of.
     destruct (ext_of env (OComp r sub)) as [lo hi]. simpl in *. lia.
 Qed.
+
+(* ------------------------------------------------------------------ from BfsWf.wf_op to span_wf *)
+(* what is left to ask of a graph the model built (wf_op holds by construction): non-negative leaf durations, no empty
+   (sub-)graph, no JOINED_END link on a block *)
+Inductive shape_ok (env : denv) : op -> Prop :=
+| shape_leaf l : 0 <= resolve env (l_dur l) -> shape_ok env (OLeaf l)
+| shape_comp r ns : ns <> [] -> (forall n, In n ns -> is_comp (n_op n) = true -> block_link_ok (n_link n)) ->
+    Forall (fun n => shape_ok env (n_op n)) ns -> shape_ok env (OComp r ns).
+
+Theorem wf_op_span_wf env o : wf_op o -> shape_ok env o -> span_wf env o.
+Proof.
+  induction o as [l | r ns IH] using op_nodes_ind; intros W S.
+  - inversion S; subst. constructor. assumption.
+  - apply wf_op_comp_inv in W as [W WD]. inversion S as [|? ? N B SD]; subst.
+    constructor; try assumption.
+    + exact (proj1 W).
+    + apply wf_nodes_node_links. exact W.
+    + intros n Hn Hp. apply In_nth_error in Hn as (i & Ei). exact (wf_nodes_root_unrelated ns i n W Ei Hp).
+    + rewrite Forall_forall in *. intros n Hn. apply IH; [exact Hn | apply WD; exact Hn | apply SD; exact Hn].
+Qed.
+
+(* shape_ok is decidable: a checker for concrete programs *)
+Definition block_link_okb (l : link) : bool :=
+  match l with LRel RelationType_JOINED_END _ => false | _ => true end.
+Fixpoint shape_okb (env : denv) (o : op) : bool :=
+  match o with
+  | OLeaf l => 0 <=? resolve env (l_dur l)
+  | OComp _ ns =>
+      negb (Nat.eqb (length ns) 0) &&
+      (fix go (l : list node) : bool :=
+         match l with
+         | [] => true
+         | Node _ lk o' :: t => (if is_comp o' then block_link_okb lk else true) && shape_okb env o' && go t
+         end) ns
+  end.
+
+Lemma shape_okb_sound env o : shape_okb env o = true -> shape_ok env o.
+Proof.
+  induction o as [l | r ns IH] using op_nodes_ind; intros H.
+  - constructor. simpl in H. lia.
+  - simpl in H. apply andb_true_iff in H as [H1 H2].
+    assert (K : Forall (fun n => (is_comp (n_op n) = true -> block_link_ok (n_link n)) /\ shape_ok env (n_op n)) ns).
+    { clear H1. induction ns as [|[p lk o'] t IHt]; [constructor|].
+      apply andb_true_iff in H2 as [H2 H3]. apply andb_true_iff in H2 as [H2 H4].
+      inversion IH as [|? ? IHn IHr]; subst. constructor; [|apply IHt; assumption]. simpl in *. split; [|apply IHn; exact H4].
+      intros C. rewrite C in H2. destruct lk as [|[] ?| |]; simpl in *; auto; discriminate. }
+    rewrite Forall_forall in K. constructor.
+    + destruct ns; [discriminate | congruence].
+    + intros n Hn. exact (proj1 (K n Hn)).
+    + apply Forall_forall. intros n Hn. exact (proj2 (K n Hn)).
+Qed.
+
+Corollary program_span env p c se : shape_okb env (OComp 1 (run_prog env p)) = true -> ctx_plain c ->
+  let L := listing_op env (OComp 1 (run_prog env p)) c se in
+  L <> [] /\ comp_duration env (run_prog env p) = zmax_list 0 (map e_end L) - zmin_list 0 (map e_start L).
+Proof.
+  intros H P. apply nested_span; [|exact P]. apply wf_op_span_wf; [apply run_prog_wf_op | apply shape_okb_sound; exact H].
+Qed.
+
+(* ------------------------------------------------------------------ examples *)
+Definition ex_wait (lab q d : Z) : leaf := mk_leaf lab C_Wait [q] QubitChannel_ALL (DFixed d) None.
+Definition ex_env : denv := mk_env 0 0 0 0 [].
+Definition ex_show (ns : list node) : list (Z * Z * Z) :=
+  map (fun e => (l_lab (e_leaf e), e_start e, e_end e)) (listing ex_env ns).
+
+(* the two historical F2 witnesses: the model (following the fixed code) reports the full span *)
+Definition f2_inner : list cmd :=       (* Wait 10 on q0; Wait 1 on q1 JOINED_START it: was reported as 1 *)
+  [ CAdd (ex_wait 0 0 10) None; CAdd (ex_wait 1 1 1) (Some (RelationType_JOINED_START, 0%nat)) ].
+Definition f2_early : list cmd :=       (* JOINED_END with the longer duration: starts before the first-added operation *)
+  [ CAdd (ex_wait 0 0 2) None; CAdd (ex_wait 1 1 5) (Some (RelationType_JOINED_END, 0%nat)) ].
+
+Example f2_inner_now : comp_duration ex_env (run_prog ex_env f2_inner) = 10 /\
+                       ex_show (run_prog ex_env f2_inner) = [(0, 0, 10); (1, 0, 1)].
+Proof. vm_compute. split; reflexivity. Qed.
+Example f2_early_now : comp_duration ex_env (run_prog ex_env f2_early) = 5 /\
+                       ex_show (run_prog ex_env f2_early) = [(0, 0, 2); (1, -3, 2)].
+Proof. vm_compute. split; reflexivity. Qed.
+(* as a block with a follower: the follower (Wait 2 on q1) starts at 10, after everything inside; whole span 12 *)
+Example f2_inner_follower :
+  let ns := run_prog ex_env [ CSub 1 f2_inner; CAdd (ex_wait 2 1 2) None ] in
+  ex_show ns = [(0, 0, 10); (1, 0, 1); (2, 10, 12)] /\ comp_duration ex_env ns = 12.
+Proof. vm_compute. split; reflexivity. Qed.
+(* the block whose content starts 3 before its first operation has duration 5: its follower starts at 0 + 5 (the premise of the
+   followers theorem, inner extent starting at 0, fails here and the follower indeed starts after the content's end 2) *)
+Example f2_early_follower :
+  let ns := run_prog ex_env [ CSub 1 f2_early; CAdd (ex_wait 2 1 2) None ] in
+  ex_show ns = [(0, 0, 2); (1, -3, 2); (2, 5, 7)] /\ comp_duration ex_env ns = 10.
+Proof. vm_compute. split; reflexivity. Qed.
+
+(* the hypotheses of nested_span / followers are satisfiable on a non-trivial input (a block, three relation types) *)
+Definition ex_prog : list cmd :=
+  [ CAdd (ex_wait 0 0 10) None;
+    CAdd (ex_wait 1 1 3) (Some (RelationType_JOINED_START, 0%nat));
+    CAdd (ex_wait 2 2 4) (Some (RelationType_JOINED_END, 0%nat));
+    CSub 3 [ CAdd (ex_wait 4 0 1) None; CAdd (ex_wait 5 1 5) (Some (RelationType_JOINED_START, 0%nat)) ];
+    CAdd (ex_wait 6 0 1) None ].
+Example ex_span_wf : span_wf ex_env (OComp 1 (run_prog ex_env ex_prog)).
+Proof. apply wf_op_span_wf; [apply run_prog_wf_op | apply shape_okb_sound; vm_compute; reflexivity]. Qed.
+Example ex_span : comp_duration ex_env (run_prog ex_env ex_prog) = 10 /\
+  ex_show (run_prog ex_env ex_prog) = [(0, 0, 10); (1, 0, 3); (2, 6, 10); (4, 3, 4); (5, 3, 8); (6, 8, 9)].
+Proof. vm_compute. split; reflexivity. Qed.
+
+(* why span_wf asks for non-empty sub-graphs: an EMPTY block contributes its (content-free) instant to the extent.  Placed by an
+   explicit FOLLOWED_BY behind a block whose content ends before start + duration, it lies outside everything listed: duration 7
+   for a listed span of 5.  (Not reachable through run_prog, which places blocks implicitly: an empty block shares no channel
+   and lands at the circuit start.) *)
+Example empty_block_outside :
+  let blk := OComp 1 [Node None LNone (OLeaf (ex_wait 0 0 3));
+                      Node (Some 0%nat) (LRel RelationType_JOINED_END 0) (OLeaf (ex_wait 1 1 5))] in
+  let outer := [Node None LNone blk; Node (Some 0%nat) (LRel RelationType_FOLLOWED_BY 0) (OComp 1 [])] in
+  ext_of ex_env blk = (-2, 3) /\ comp_duration ex_env outer = 7 /\ ex_show outer = [(0, 0, 3); (1, -2, 3)].
+Proof. vm_compute. repeat split; reflexivity. Qed.
+
+(* ------------------------------------------------------------------ every build program has the shape *)
+(* conditions on the PROGRAM (not on the built graph): non-negative operation durations, no empty sub-circuit; on the settings:
+   non-negative defaults (copy() of a class that does not pass its duration on falls back to the class default) *)
+Definition env_ok (env : denv) : Prop := forall cls, 0 <= resolve env (default_dstrat cls).
+
+Inductive cmd_ok (env : denv) : cmd -> Prop :=
+| ok_add l r : 0 <= resolve env (l_dur l) -> cmd_ok env (CAdd l r)
+| ok_dangling l t : 0 <= resolve env (l_dur l) -> cmd_ok env (CDangling l t)
+| ok_sub r body : body <> [] -> Forall (cmd_ok env) body -> cmd_ok env (CSub r body).
+
+Lemma class_defaults_nonneg :
+  forallb (fun cs => match cs_dur cs with DefFixed t => 0 <=? t | DefGlobal _ => true end) (no_class :: class_table) = true.
+Proof. vm_compute. reflexivity. Qed.
+
+Lemma env_ok_of_globals env : (forall k, 0 <= genv env k) -> env_ok env.
+Proof.
+  intros G cls. unfold default_dstrat, class_of.
+  assert (H : In (nth (Z.to_nat cls) class_table no_class) (no_class :: class_table)).
+  { destruct (nth_in_or_default (Z.to_nat cls) class_table no_class) as [H | ->]; [right; exact H | left; reflexivity]. }
+  pose proof class_defaults_nonneg as F. rewrite forallb_forall in F. specialize (F _ H).
+  destruct (cs_dur (nth (Z.to_nat cls) class_table no_class)) as [t | k]; simpl; [lia | apply G].
+Qed.
+
+Definition shape_nodes (env : denv) (ns : list node) : Prop :=
+  (forall n, In n ns -> is_comp (n_op n) = true -> block_link_ok (n_link n)) /\ Forall (fun n => shape_ok env (n_op n)) ns.
+
+Lemma shape_ok_comp_iff env r ns : shape_ok env (OComp r ns) <-> ns <> [] /\ shape_nodes env ns.
+Proof.
+  split.
+  - intros H. inversion H; subst. split; [assumption | split; assumption].
+  - intros [N [B F]]. constructor; assumption.
+Qed.
+
+Lemma shape_nodes_nil env : shape_nodes env [].
+Proof. split; [intros n [] | constructor]. Qed.
+
+Lemma new_node_block_ok env ns o l : block_link_ok l -> block_link_ok (n_link (new_node env ns o l)).
+Proof.
+  intros B. unfold new_node. destruct l as [| t p | ps | t]; simpl;
+    repeat match goal with |- context [match ?x with _ => _ end] => destruct x end; simpl; auto.
+Qed.
+
+Lemma add_node_shape env ns o l : shape_nodes env ns -> shape_ok env o -> (is_comp o = true -> block_link_ok l) ->
+  shape_nodes env (add_node env ns o l).
+Proof.
+  intros [B F] So Bl. rewrite add_node_eq. split.
+  - intros n Hn C. apply in_app_or in Hn as [Hn | [<- | []]]; [apply B; assumption|].
+    rewrite new_node_op in C. apply new_node_block_ok. apply Bl. exact C.
+  - apply Forall_app. split; [exact F|]. constructor; [|constructor]. now rewrite new_node_op.
+Qed.
+
+Lemma map_link_block_ok m l : block_link_ok l -> block_link_ok (map_link m l).
+Proof. destruct l as [| t p | ps | t]; simpl; auto. destruct (lookup m p); simpl; auto. Qed.
+
+Lemma rebuild_fold_shape env ns cops : shape_nodes env ns -> Forall (shape_ok env) cops ->
+  (forall i n o', nth_error ns i = Some n -> nth_error cops i = Some o' -> is_comp o' = is_comp (n_op n)) ->
+  forall is new m, shape_nodes env new -> shape_nodes env (fst (fold_left (rebuild_step env ns cops) is (new, m))).
+Proof.
+  intros [B _] HC HK is. induction is as [|i is IH]; intros new m S; simpl; [exact S|].
+  destruct (nth_error ns i) as [n|] eqn:En; [|apply IH; assumption].
+  destruct (nth_error cops i) as [o'|] eqn:Eo; [|apply IH; assumption].
+  apply IH. apply add_node_shape; [exact S | | ].
+  - rewrite Forall_forall in HC. apply HC. eapply nth_error_In. exact Eo.
+  - intros C. rewrite (HK i n o' En Eo) in C. destruct (n_op n) as [lf | r sub] eqn:On; [discriminate|]. simpl.
+    apply map_link_block_ok. apply B; [eapply nth_error_In; exact En | now rewrite On].
+Qed.
+
+Lemma rebuild_step_length env ns cops st i n o' : nth_error ns i = Some n -> nth_error cops i = Some o' ->
+  length (fst (rebuild_step env ns cops st i)) = S (length (fst st)).
+Proof. intros En Eo. destruct st as [new m]. unfold rebuild_step. rewrite En, Eo. simpl. apply add_node_length. Qed.
+
+Lemma rebuild_step_mono env ns cops st i : (length (fst st) <= length (fst (rebuild_step env ns cops st i)))%nat.
+Proof.
+  destruct st as [new m]. unfold rebuild_step. destruct (nth_error ns i) as [n|]; [|simpl; lia].
+  destruct (nth_error cops i) as [o'|]; [|simpl; lia]. simpl. rewrite add_node_length. lia.
+Qed.
+
+Lemma rebuild_fold_mono env ns cops is : forall st,
+  (length (fst st) <= length (fst (fold_left (rebuild_step env ns cops) is st)))%nat.
+Proof.
+  induction is as [|i is IH]; intros st; cbn [fold_left]; [lia|].
+  etransitivity; [apply (rebuild_step_mono env ns cops st i) | apply IH].
+Qed.
+
+Lemma rebuild_nonempty env ns cops : ns <> [] -> wf_parents (parents ns) -> length cops = length ns -> rebuild env ns cops <> [].
+Proof.
+  intros N W L. rewrite rebuild_eq.
+  pose proof (depth1_in_bfs _ _ (first_node_root ns N W)) as H0. apply in_split in H0 as (l1 & l2 & E). rewrite E.
+  rewrite fold_left_app. cbn [fold_left].
+  set (st1 := fold_left (rebuild_step env ns cops) l1 ([], [])).
+  assert (exists n o', nth_error ns 0 = Some n /\ nth_error cops 0 = Some o') as (n & o' & En & Eo).
+  { destruct ns as [|n0 ns']; [congruence|]. destruct cops as [|o0 cops']; [discriminate|]. exists n0, o0. auto. }
+  pose proof (rebuild_step_length env ns cops st1 0%nat n o' En Eo) as S1.
+  pose proof (rebuild_fold_mono env ns cops l2 (rebuild_step env ns cops st1 0%nat)) as M.
+  intros Z0. rewrite Z0 in M. simpl in M. lia.
+Qed.
+
+Lemma shape_leaf_copy env l : env_ok env -> 0 <= resolve env (l_dur l) -> 0 <= resolve env (l_dur (copy_leaf l)).
+Proof. intros E H. unfold copy_leaf. simpl. destruct (cs_copy_dur (class_of (l_cls l))); [exact H | apply E]. Qed.
+
+Lemma is_comp_copy env o : is_comp (copy_op env o) = is_comp o.
+Proof. destruct o; [reflexivity | rewrite copy_op_comp; reflexivity]. Qed.
+
+Theorem copy_op_shape env o : env_ok env -> wf_op o -> shape_ok env o -> shape_ok env (copy_op env o).
+Proof.
+  intros E. induction o as [l | r ns IH] using op_nodes_ind; intros W S.
+  - simpl. constructor. inversion S; subst. apply shape_leaf_copy; assumption.
+  - apply wf_op_comp_inv in W as [W WD]. apply shape_ok_comp_iff in S as [N [B F]].
+    rewrite copy_op_comp. apply shape_ok_comp_iff. split.
+    + apply rebuild_nonempty; [exact N | exact (proj1 W) | now rewrite map_length].
+    + rewrite rebuild_eq. apply rebuild_fold_shape; [split; assumption | | | apply shape_nodes_nil].
+      * apply Forall_map. rewrite Forall_forall in *. intros n Hn. apply IH; [exact Hn | apply WD; exact Hn | apply F; exact Hn].
+      * intros i n o' En Eo. rewrite nth_error_map, En in Eo. simpl in Eo. inversion Eo; subst. apply is_comp_copy.
+Qed.
+
+Lemma shape_ok_reps env r r' ns : shape_ok env (OComp r ns) -> shape_ok env (OComp r' ns).
+Proof. rewrite !shape_ok_comp_iff. auto. Qed.
+
+Lemma run_cmds_shape env cs : Forall (fun c => shape_ok env (cmd_op env c)) cs ->
+  forall ns, shape_nodes env ns -> shape_nodes env (run_cmds env cs ns).
+Proof.
+  induction cs as [|c t IH]; intros F ns S; [exact S|]. inversion F as [|? ? Fc Ft]; subst.
+  rewrite run_cmds_cons. apply IH; [exact Ft|]. apply add_node_shape; [exact S | exact Fc|].
+  intros C. destruct c as [l [[ty p]|] | l ty | r body]; simpl in *; try discriminate. exact I.
+Qed.
+
+Theorem cmd_op_shape env c : env_ok env -> cmd_ok env c -> shape_ok env (cmd_op env c).
+Proof.
+  intros E. induction c as [l r | l t | r body IH] using cmd_ind'; intros K.
+  - inversion K; subst. simpl. constructor. assumption.
+  - inversion K; subst. simpl. constructor. assumption.
+  - inversion K as [| |? ? N KB]; subst. simpl.
+    assert (S : shape_ok env (OComp 1 (run_cmds env body []))).
+    { apply shape_ok_comp_iff. split.
+      - intros Z0. apply (f_equal (@length _)) in Z0. rewrite run_cmds_length in Z0. destruct body; [congruence | discriminate].
+      - apply run_cmds_shape; [|apply shape_nodes_nil]. rewrite Forall_forall in *. intros c Hc. apply IH; [exact Hc | apply KB; exact Hc]. }
+    pose proof (copy_op_shape env _ E (run_prog_wf_op env 1 body) S) as C. rewrite copy_op_comp in C.
+    rewrite copy_nodes_eq. exact (shape_ok_reps env 1 r _ C).
+Qed.
+
+Theorem run_prog_shape env p : env_ok env -> p <> [] -> Forall (cmd_ok env) p -> shape_ok env (OComp 1 (run_prog env p)).
+Proof.
+  intros E N K. apply shape_ok_comp_iff. split.
+  - intros Z0. apply (f_equal (@length _)) in Z0. unfold run_prog in Z0. rewrite run_cmds_length in Z0.
+    destruct p; [congruence | discriminate].
+  - apply run_cmds_shape; [|apply shape_nodes_nil]. rewrite Forall_forall in *. intros c Hc. apply cmd_op_shape; [exact E | apply K; exact Hc].
+Qed.
+
+(* C04 for every build program without empty sub-circuits, non-negative durations *)
+Theorem program_span_all env p c se : env_ok env -> p <> [] -> Forall (cmd_ok env) p -> ctx_plain c ->
+  let L := listing_op env (OComp 1 (run_prog env p)) c se in
+  L <> [] /\ comp_duration env (run_prog env p) = zmax_list 0 (map e_end L) - zmin_list 0 (map e_start L).
+Proof.
+  intros E N K P. apply nested_span; [|exact P]. apply wf_op_span_wf; [apply run_prog_wf_op | apply run_prog_shape; assumption].
+Qed.
+
+Example ex_prog_ok : env_ok ex_env /\ Forall (cmd_ok ex_env) ex_prog.
+Proof.
+  split; [apply env_ok_of_globals; intros []; vm_compute; discriminate|].
+  repeat constructor; try (vm_compute; discriminate); congruence.
+Qed.
+
+(* ------------------------------------------------------------------ ... and keeps it when repetitions are unrolled *)
+Lemma extend_fold_shape env other rel : shape_nodes env other -> block_link_ok rel ->
+  forall is cur m, shape_nodes env cur -> shape_nodes env (fst (fold_left (extend_step env other rel) is (cur, m))).
+Proof.
+  intros [B F] R is. induction is as [|i is IH]; intros cur m S; simpl; [exact S|].
+  destruct (nth_error other i) as [n|] eqn:En; [|apply IH; assumption].
+  pose proof (nth_error_In _ _ En) as Hin. apply IH. apply add_node_shape; [exact S | | ].
+  - rewrite Forall_forall in F. apply F. exact Hin.
+  - intros C. destruct (has_relation (n_link n)); [apply map_link_block_ok; apply B; assumption | exact R].
+Qed.
+
+Lemma extend_step_mono env other rel st i : (length (fst st) <= length (fst (extend_step env other rel st i)))%nat.
+Proof.
+  destruct st as [cur m]. unfold extend_step. destruct (nth_error other i) as [n|]; [|simpl; lia].
+  simpl. rewrite add_node_length. lia.
+Qed.
+
+Lemma extend_fold_mono env other rel is : forall st,
+  (length (fst st) <= length (fst (fold_left (extend_step env other rel) is st)))%nat.
+Proof.
+  induction is as [|i is IH]; intros st; cbn [fold_left]; [lia|].
+  etransitivity; [apply (extend_step_mono env other rel st i) | apply IH].
+Qed.
+
+Lemma extend_shape env r ns other : shape_ok env (OComp r ns) -> shape_nodes env other -> shape_ok env (OComp r (extend env ns other)).
+Proof.
+  intros S SO. apply shape_ok_comp_iff in S as [N S]. apply shape_ok_comp_iff. rewrite extend_eq. split.
+  - intros Z0. pose proof (extend_fold_mono env other (match ns with [] => LNone | _ => LMulti (graph_leaves (parents ns)) end)
+                             (bfs (parents other)) (ns, [])) as M.
+    rewrite Z0 in M. simpl in M. destruct ns; [congruence | simpl in M; lia].
+  - apply extend_fold_shape; [exact SO | destruct ns; exact I | exact S].
+Qed.
+
+Lemma copy_nodes_shape env ns : env_ok env -> wf_op (OComp 1 ns) -> shape_ok env (OComp 1 ns) -> shape_ok env (OComp 1 (copy_nodes env ns)).
+Proof.
+  intros E W S. pose proof (copy_op_shape env _ E W S) as C. rewrite copy_op_comp in C. now rewrite copy_nodes_eq.
+Qed.
+
+Lemma repeat_nodes_shape env r ns times : env_ok env -> wf_op (OComp r ns) -> shape_ok env (OComp r ns) ->
+  shape_ok env (OComp r (repeat_nodes env ns times)).
+Proof.
+  intros E W S. unfold repeat_nodes. apply (iter_n_inv (fun x => shape_ok env (OComp r x))); [|exact S].
+  intros x Sx. apply extend_shape; [exact Sx|].
+  pose proof (copy_nodes_shape env ns E (wf_op_reps r 1 ns W) (shape_ok_reps env r 1 ns S)) as S1.
+  pose proof (copy_nodes_shape env _ E (copy_nodes_wf_op env 1 ns) S1) as S2.
+  apply shape_ok_comp_iff in S2. exact (proj2 S2).
+Qed.
+
+Theorem apply_mods_fuel_shape env fuel : env_ok env -> forall reps r' ns, wf_op (OComp reps ns) -> shape_ok env (OComp reps ns) ->
+  shape_ok env (OComp r' (apply_mods_fuel fuel env reps ns)).
+Proof.
+  intros E. induction fuel as [|f IH]; intros reps r' ns W S; simpl; [apply (shape_ok_reps env reps); exact S|].
+  pose proof (repeat_nodes_wf_op env reps ns reps W) as WR. apply wf_op_comp_inv in WR as [_ WD].
+  pose proof (repeat_nodes_shape env reps ns reps E W S) as SR. apply shape_ok_comp_iff in SR as [N [B F]].
+  apply shape_ok_comp_iff. split; [apply map_neq_nil; exact N|]. rewrite Forall_forall in *. split.
+  - intros m Hm C. apply in_map_iff in Hm as (n & <- & Hn). specialize (B n Hn).
+    destruct n as [p l [lf | r sub]]; simpl in *; [discriminate | apply B; reflexivity].
+  - apply Forall_forall. intros m Hm. apply in_map_iff in Hm as (n & <- & Hn). specialize (WD n Hn). specialize (F n Hn).
+    destruct n as [p l [lf | r sub]]; simpl in *; [exact F | apply IH; assumption].
+Qed.
+
+Theorem unrolled_span_all env p c se : env_ok env -> p <> [] -> Forall (cmd_ok env) p -> ctx_plain c ->
+  let ns := apply_modifiers env 1 (run_prog env p) in
+  let L := listing_op env (OComp 1 ns) c se in
+  L <> [] /\ comp_duration env ns = zmax_list 0 (map e_end L) - zmin_list 0 (map e_start L).
+Proof.
+  intros E N K P. apply nested_span; [|exact P]. apply wf_op_span_wf.
+  - apply apply_modifiers_wf_op. apply run_prog_wf_op.
+  - apply apply_mods_fuel_shape; [exact E | apply run_prog_wf_op | apply run_prog_shape; assumption].
+Qed.
